@@ -40,15 +40,18 @@ func allChecks() []Check {
 		{
 			ID: "C01", Title: "Parsing is total: a tree or an error, never a crash, hang or half-built tree",
 			Runs: []HarnessRun{
+				{Harness: "VP_C01_scaling", Quick: map[string]int{}, MustReach: []string{"C01/scaling/done"}, PanicLabel: "C01/scaling/no-panic", SampleEvery: 2},
 				{Harness: "VP_C01_pool", Quick: map[string]int{}, MustReach: []string{"C01/bytes/accepted", "C01/bytes/rejected"}, PanicLabel: "C01/pool/no-panic", SampleEvery: 3},
 				{Harness: "VP_C01_bytes", Quick: map[string]int{"L": 3}, Thorough: map[string]int{"L": 4}, MustReach: []string{"C01/bytes/accepted", "C01/bytes/rejected"}, PanicLabel: "C01/bytes/no-panic"},
 				{Harness: "VP_C01_lists", Quick: map[string]int{"K": 3}, Thorough: map[string]int{"K": 4}, MustReach: []string{"C01/lists/accepted", "C01/lists/rejected"}, PanicLabel: "C01/lists/no-panic"},
 				{Harness: "VP_C01_tokens", Quick: map[string]int{"K": 2}, Thorough: map[string]int{"K": 3}, MustReach: []string{"C01/tokens/accepted", "C01/tokens/rejected"}, PanicLabel: "C01/tokens/no-panic"},
 			},
-			Bounds: map[string]string{"bytes": "ParseSourceCode on every text of exactly L symbolic bytes (valid UTF-8 or not); quick L=3, thorough L=4; every path must end within the step budget (unwinding check)",
+			Bounds: map[string]string{"scaling": "CONCRETE SHAPES (not symbolic): 18 input shapes (operator chains, unclosed and closed nesting, lists of stray tokens that raise one diagnostic each, member / call chains, prefix runs, long strings, several lines) parsed at two lengths, the second four times the first: the number of SSA instructions the engine executes grows at most six-fold (natively: elapsed time at 4096 / 16384 units, used only to confirm a candidate)",
+				"pool":   "CONCRETE POOL: totality and completeness on 72 longer formulas (keywords as member names and operands, nested lists and conditionals, truncated constructs)",
+				"bytes":  "ParseSourceCode on every text of exactly L symbolic bytes (valid UTF-8 or not); quick L=3, thorough L=4; every path must end within the step budget (unwinding check)",
 				"lists":  "a( t1..tK ) and [ t1..tK ] over the 10 tokens the list loops distinguish, symbolic line-break flags, full error recovery (quick K=3, thorough K=4); bytes: every text is parsed twice and both calls must agree",
 				"tokens": "the real parser with full error recovery over every sequence of exactly K tokens (symbolic kinds over the whole scanner image, symbolic line-break flags) through a stub scanner; quick K=2, thorough K=3"},
-			Outside:     []string{"inputs longer than the bounds (64 KiB texts, deep nesting, long operator chains)", "running time proportional to input length"},
+			Outside:     []string{"inputs longer than the bounds (64 KiB texts, deep nesting, long operator chains) for the symbolic runs", "running time in general: C01/scaling compares the cost at two lengths for 18 input shapes only"},
 			Assumptions: commonAssumptions,
 		},
 		{
@@ -292,6 +295,7 @@ func allChecks() []Check {
 		{
 			ID: "C12", Title: "Numeric literals denote exactly the decimal number written",
 			Runs: []HarnessRun{
+				{Harness: "VP_C12_pairs", Quick: map[string]int{}, MustReach: []string{"C12/pairs/done"}, PanicLabel: "C12/pairs/no-panic", SampleEvery: 1},
 				{Harness: "VP_C12_long", Quick: map[string]int{}, MustReach: []string{"C12/long/done"}, PanicLabel: "C12/long/no-panic", SampleEvery: 1},
 				{Harness: "VP_C12_literals", Quick: map[string]int{"L": 6, "ALPHA": 1, "CTX": 3}, Thorough: map[string]int{"L": 7, "ALPHA": 1, "CTX": 3}, MustReach: []string{"C12/literals/wellformed", "C12/literals/malformed"}, PanicLabel: "C12/literals/no-panic"},
 				{Harness: "VP_C12_literals", Quick: map[string]int{"L": 4, "ALPHA": 0, "CTX": 6}, Thorough: map[string]int{"L": 6, "ALPHA": 0, "CTX": 6}, MustReach: []string{"C12/literals/wellformed", "C12/literals/malformed"}, PanicLabel: "C12/literals/no-panic"},
@@ -304,9 +308,11 @@ func allChecks() []Check {
 			ID: "C13", Title: "String literals round-trip every text through quoting and escaping",
 			Runs: []HarnessRun{
 				{Harness: "VP_C13_roundtrip", Quick: map[string]int{"L": 2}, Thorough: map[string]int{"L": 3}, MustReach: []string{"C13/roundtrip/done"}, PanicLabel: "C13/roundtrip/no-panic"},
+				{Harness: "VP_C13_neighbours", Quick: map[string]int{"L": 2}, Thorough: map[string]int{"L": 3}, MustReach: []string{"C13/neighbours/done"}, PanicLabel: "C13/neighbours/no-panic"},
 				{Harness: "VP_C13_open", Quick: map[string]int{"L": 2}, Thorough: map[string]int{"L": 3}, MustReach: []string{"C13/open/done"}, PanicLabel: "C13/open/no-panic"},
 			},
-			Bounds:      map[string]string{"roundtrip": "every text of 0..L symbolic bytes (incl. invalid UTF-8), both quote styles, every choice among the equivalent escape forms (verbatim, named, \\xHH, \\uHHHH, upper/lower hex) per character; quick L=2, thorough L=3", "open": "bodies of 0..L bytes without the delimiter/backslash, left open at end of input or at each of the five line-break code points"},
+			Bounds: map[string]string{"neighbours": "the same literal between two other literals with escapes in one array formula: every literal keeps its own text",
+				"roundtrip": "every text of 0..L symbolic bytes (incl. invalid UTF-8), both quote styles, every choice among the equivalent escape forms (verbatim, named, \\xHH, \\uHHHH, upper/lower hex) per character; quick L=2, thorough L=3", "open": "bodies of 0..L bytes without the delimiter/backslash, left open at end of input or at each of the five line-break code points"},
 			Outside:     []string{"texts longer than L bytes"},
 			Assumptions: commonAssumptions,
 		},
@@ -318,11 +324,11 @@ func allChecks() []Check {
 				{Harness: "VP_C14_tokens", Quick: map[string]int{"L": 2, "OPS": 0}, Thorough: map[string]int{"L": 3, "OPS": 0}, MustReach: []string{"C14/tokens/complete", "C14/tokens/cut"}, PanicLabel: "C14/tokens/no-panic"},
 				{Harness: "VP_C14_tokens", Quick: map[string]int{"L": 4, "OPS": 2}, Thorough: map[string]int{"L": 5, "OPS": 2}, MustReach: []string{"C14/tokens/complete"}, PanicLabel: "C14/tokens/no-panic"},
 				{Harness: "VP_C14_tokens", Quick: map[string]int{"L": 4, "OPS": 1}, Thorough: map[string]int{"L": 5, "OPS": 1}, MustReach: []string{"C14/tokens/complete"}, PanicLabel: "C14/tokens/no-panic"},
-				{Harness: "VP_C14_scanstep", Quick: map[string]int{"L": 3}, Thorough: map[string]int{"L": 4}, MustReach: []string{"C14/scanstep/done"}, PanicLabel: "C14/scanstep/no-panic"},
+				{Harness: "VP_C14_scanstep", Quick: map[string]int{"L": 4, "ESC": 0}, Thorough: map[string]int{"L": 4, "ESC": 0}, MustReach: []string{"C14/scanstep/done"}, PanicLabel: "C14/scanstep/no-panic"},
 			},
 			Bounds: map[string]string{"tokens": "the real scanner's token sequence (kind, start, end, line-break flag) equals an independent longest-match reference tokenizer's (operator table longest-first, keywords as whole words, identifier classes, ES whitespace/line-break separators) on every text of L symbolic bytes (quick L=2, thorough L=3) and on every text of L bytes over the operator-dense alphabet {= ! . & | ? < > + a 1 space newline 0xC2 0xA0 (NBSP)} (quick L=4, thorough L=5); comparison stops where the statement leaves token extents open (malformed numbers, hex, unterminated strings, escapes)",
 				"spacing": "byte level: every text of L bytes over {a 1 . ( ) , + ! ? : space}, a separator from {space, tab, LF, CR LF, U+2028, NBSP, space LF space} inserted before any one token (also before the end): an accepted text stays accepted with the same tree, a rejected text stays rejected; line breaks before . !. ( excepted; quick L=3, thorough L=4",
-				"classes": "every code point 0..0x10FFFF (one symbolic 32-bit rune)", "scanstep": "one Scan() from every start position of every text of L symbolic bytes (inductive step: tiling for all texts of that size follows by induction over calls); quick L=3, thorough L=4"},
+				"classes": "every code point 0..0x10FFFF (one symbolic 32-bit rune)", "scanstep": "one Scan() from every start position of every text of L symbolic bytes (inductive step: tiling for all texts of that size follows by induction over calls); L=4 in both tiers (a malformed \\x escape needs four bytes)"},
 			Outside:     []string{"contents of the ES5 identifier tables (no independent oracle)", "texts longer than the bound"},
 			Assumptions: commonAssumptions,
 		},
